@@ -63,88 +63,265 @@ Proof.
   exists m2. split; [exact G2|]. intros s. specialize (L1 s). specialize (L2 s). lia.
 Qed.
 
-Definition in_snapshot (c : cst) (j : N) (m : smap) : Prop :=
-  In (j, m) (file c) \/ exists rest buf, pending c = Some (rest, buf) /\ In (j, m) buf.
+(* ---- saves in flight: list lemmas ------------------------------------------------------------------- *)
+Lemma sv_get_in l : forall i p, sv_get l i = Some p -> In (i, p) l.
+Proof.
+  induction l as [|[k q] l IH]; intros i p H; cbn [sv_get] in H; [discriminate|].
+  destruct (Nat.eqb_spec k i) as [->|Hne]; [inversion H; left; reflexivity | right; apply IH; exact H].
+Qed.
+
+Lemma sv_del_in l i : forall k p, In (k, p) (sv_del l i) -> k <> i /\ In (k, p) l.
+Proof.
+  induction l as [|[k0 q] l IH]; intros k p H; cbn [sv_del] in H; [destruct H|].
+  destruct (Nat.eqb_spec k0 i) as [->|Hne].
+  - destruct (IH _ _ H) as [A B]. split; [exact A | right; exact B].
+  - destruct H as [E|H]; [inversion E; subst; split; [exact Hne | left; reflexivity]|].
+    destruct (IH _ _ H) as [A B]. split; [exact A | right; exact B].
+Qed.
+
+Lemma sv_set_in l i q k p : In (k, p) (sv_set l i q) -> (k = i /\ p = q) \/ (k <> i /\ In (k, p) l).
+Proof.
+  unfold sv_set. intros [E|H]; [inversion E; left; split; reflexivity | right; apply sv_del_in; exact H].
+Qed.
+
+(* ---- every block anywhere (file, shared buffer, temp files, finished serialisations) is a past job state *)
+Definition block_of (c : cst) (j : N) (m : smap) : Prop :=
+  In (j, m) (file c) \/ In (j, m) (buf c) \/
+  (exists i tmp, In (i, Written tmp) (saves c) /\ In (j, m) tmp) \/
+  (exists i b, In (i, b) (built c) /\ In (j, m) b).
 
 Record inv (c : cst) : Prop := {
   inv_hist : forall t, In t (hist c) -> tle t (live c);
-  inv_snap : forall j m, in_snapshot c j m -> exists t, In t (live c :: hist c) /\ tget t j = Some m
+  inv_blk : forall j m, block_of c j m -> exists t, In t (live c :: hist c) /\ tget t j = Some m
 }.
 
 Lemma inv0 : inv cst0.
 Proof.
   constructor; cbn.
   - intros t [].
-  - intros j m [[]|(rest & buf & E & _)]. discriminate E.
+  - intros j m [[]|[[]|[(i & tmp & [] & _)|(i & b & [] & _)]]].
 Qed.
 
-Lemma inv_live_grows c t' :
+Lemma inv_live_grows c t' c' :
   inv c -> tle (live c) t' ->
-  forall pend fl, pend = pending c -> fl = file c ->
-  inv {| live := t'; pending := pend; file := fl; hist := live c :: hist c |}.
+  live c' = t' -> hist c' = live c :: hist c ->
+  file c' = file c -> buf c' = buf c -> saves c' = saves c -> built c' = built c ->
+  inv c'.
 Proof.
-  intros [IH IS] Hle pend fl -> ->. constructor; cbn [live hist pending file].
-  - intros t [<-|Ht]; [exact Hle | eapply tle_trans; [apply IH; exact Ht | exact Hle]].
+  intros [IH IS] Hle El Eh Ef Eb Es Ebt. constructor.
+  - rewrite El, Eh. intros t [<-|Ht]; [exact Hle | eapply tle_trans; [apply IH; exact Ht | exact Hle]].
   - intros j m Hs. destruct (IS j m) as (t & Ht & G).
-    + destruct Hs as [Hf|(rest & buf & E & Hb)]; [left; exact Hf | right; exists rest, buf; split; assumption].
-    + exists t. split; [right; exact Ht | exact G].
+    + unfold block_of in *. rewrite Ef, Eb, Es, Ebt in Hs. exact Hs.
+    + exists t. rewrite Eh. split; [right; exact Ht | exact G].
 Qed.
 
-Lemma inv_step c l c' : inv c -> step c l = Some c' -> inv c'.
+(* a step that leaves live/hist alone and only moves existing blocks around (or adds current job states) *)
+Lemma inv_same_live c c' :
+  inv c -> live c' = live c -> hist c' = hist c ->
+  (forall j m, block_of c' j m -> block_of c j m \/ tget (live c) j = Some m) ->
+  inv c'.
 Proof.
-  intros I H. destruct l as [j|j s v| | |]; cbn [step] in H.
+  intros [IH IS] El Eh Hb. constructor.
+  - rewrite El, Eh. exact IH.
+  - rewrite El, Eh. intros j m H. destruct (Hb j m H) as [H'|G]; [apply IS; exact H'|].
+    exists (live c). split; [left; reflexivity | exact G].
+Qed.
+
+Lemma inv_step hold c l c' : inv c -> step hold c l = Some c' -> inv c'.
+Proof.
+  intros I H. destruct l as [j|j s v|i|i|i|i|i]; cbn [step] in H.
   - (* add job *)
     destruct (tget (live c) j) eqn:G; [discriminate|]. inversion H; subst c'; clear H.
-    apply (inv_live_grows c); [exact I | | reflexivity | reflexivity].
+    eapply (inv_live_grows c); try reflexivity; [exact I|].
     intros j' m Hj'. exists m. split; [|intros; lia].
-    rewrite tget_app_fresh; [exact Hj' | exact G | intros ->; congruence].
+    cbn [live]. rewrite tget_app_fresh; [exact Hj' | exact G | intros ->; congruence].
   - (* commit *)
     destruct (tget (live c) j) as [m0|] eqn:G; [|inversion H; subst; exact I].
     destruct (Z.ltb_spec (sget m0 s) v) as [Hlt|]; [|discriminate]. inversion H; subst c'; clear H.
-    apply (inv_live_grows c); [exact I | | reflexivity | reflexivity].
-    intros j' m Hj'. destruct (N.eq_dec j' j) as [->|Hne].
+    eapply (inv_live_grows c); try reflexivity; [exact I|].
+    intros j' m Hj'. cbn [live]. destruct (N.eq_dec j' j) as [->|Hne].
     + exists (sset m0 s v). split; [eapply tget_tset_same; exact G|].
       rewrite G in Hj'. inversion Hj'; subst m. apply sset_mono. exact Hlt.
     + exists m. split; [rewrite tget_tset_other by exact Hne; exact Hj' | intros; lia].
   - (* save begins *)
-    destruct (pending c) eqn:P; [discriminate|]. inversion H; subst c'; clear H.
-    destruct I as [IH IS]. constructor; cbn [live hist pending file]; [exact IH|].
-    intros j m [Hf|(rest & buf & E & Hb)]; [apply IS; left; exact Hf|].
-    inversion E; subst. destruct Hb.
+    destruct (mu c); [discriminate|]. destruct (sv_get (saves c) i); [discriminate|].
+    inversion H; subst c'; clear H. apply (inv_same_live c); try reflexivity; [exact I|].
+    intros j m [Hf|[[]|[(k & tmp & Hk & Hin)|Hb]]]; left.
+    + left; exact Hf.
+    + cbn [saves] in Hk. apply sv_set_in in Hk. destruct Hk as [[_ E]|[_ Hk]]; [discriminate E|].
+      right; right; left. exists k, tmp. split; assumption.
+    + right; right; right. exact Hb.
   - (* save visits a job *)
-    destruct (pending c) as [[[|j rest] buf]|] eqn:P; try discriminate. inversion H; subst c'; clear H.
-    destruct I as [IH IS]. constructor; cbn [live hist pending file]; [exact IH|].
-    intros j' m [Hf|(rest' & buf' & E & Hb)]; [apply IS; left; exact Hf|].
-    inversion E; subst rest' buf'; clear E.
-    assert (Hold : In (j', m) buf -> exists t, In t (live c :: hist c) /\ tget t j' = Some m).
-    { intros Hin. apply IS. right. exists (j :: rest), buf. split; [exact P | exact Hin]. }
-    destruct (tget (live c) j) as [[|kv m0]|] eqn:G; try (apply Hold; exact Hb).
-    apply in_app_or in Hb. destruct Hb as [Hb|[Hb|[]]]; [apply Hold; exact Hb|].
-    inversion Hb; subst j' m. exists (live c). split; [left; reflexivity | exact G].
-  - (* save ends *)
-    destruct (pending c) as [[[|j rest] buf]|] eqn:P; try discriminate. inversion H; subst c'; clear H.
-    destruct I as [IH IS]. constructor; cbn [live hist pending file]; [exact IH|].
-    intros j m [Hf|(rest' & buf' & E & _)]; [|discriminate E].
-    apply IS. right. exists [], buf. split; [exact P | exact Hf].
+    destruct (sv_get (saves c) i) as [[[|j rest]| |]|] eqn:P; try discriminate.
+    destruct (holds_mu c i); [|discriminate]. inversion H; subst c'; clear H.
+    apply (inv_same_live c); try reflexivity; [exact I|].
+    intros j' m [Hf|[Hb|[(k & tmp & Hk & Hin)|Hb]]].
+    + left; left; exact Hf.
+    + cbn [buf] in Hb.
+      destruct (tget (live c) j) as [[|kv m0]|] eqn:G; try (left; right; left; exact Hb).
+      apply in_app_or in Hb. destruct Hb as [Hb|[Hb|[]]]; [left; right; left; exact Hb|].
+      inversion Hb; subst j' m. right. exact G.
+    + cbn [saves] in Hk. apply sv_set_in in Hk. destruct Hk as [[_ E]|[_ Hk]]; [discriminate E|].
+      left; right; right; left. exists k, tmp. split; assumption.
+    + left; right; right; right. exact Hb.
+  - (* buffer built *)
+    destruct (sv_get (saves c) i) as [[[|j rest]| |]|] eqn:P; try discriminate.
+    destruct (holds_mu c i); [|discriminate]. inversion H; subst c'; clear H.
+    apply (inv_same_live c); try reflexivity; [exact I|].
+    intros j' m [Hf|[Hb|[(k & tmp & Hk & Hin)|(k & b & Hk & Hin)]]]; left.
+    + left; exact Hf.
+    + right; left; exact Hb.
+    + cbn [saves] in Hk. apply sv_set_in in Hk. destruct Hk as [[_ E]|[_ Hk]]; [discriminate E|].
+      right; right; left. exists k, tmp. split; assumption.
+    + cbn [built] in Hk. destruct Hk as [E|Hk]; [inversion E; subst; right; left; exact Hin|].
+      right; right; right. exists k, b. split; assumption.
+  - (* write *)
+    destruct (sv_get (saves c) i) as [[| |]|] eqn:P; try discriminate.
+    inversion H; subst c'; clear H. apply (inv_same_live c); try reflexivity; [exact I|].
+    intros j' m [Hf|[Hb|[(k & tmp & Hk & Hin)|Hb]]]; left.
+    + left; exact Hf.
+    + right; left; exact Hb.
+    + cbn [saves] in Hk. apply sv_set_in in Hk. destruct Hk as [[_ E]|[_ Hk]].
+      * inversion E; subst tmp. right; left; exact Hin.
+      * right; right; left. exists k, tmp. split; assumption.
+    + right; right; right. exact Hb.
+  - (* rename *)
+    destruct (sv_get (saves c) i) as [[| |tmp]|] eqn:P; try discriminate.
+    inversion H; subst c'; clear H. apply (inv_same_live c); try reflexivity; [exact I|].
+    intros j' m [Hf|[Hb|[(k & tmp' & Hk & Hin)|Hb]]]; left.
+    + cbn [file] in Hf. right; right; left. exists i, tmp. split; [apply sv_get_in; exact P | exact Hf].
+    + right; left; exact Hb.
+    + cbn [saves] in Hk. apply sv_del_in in Hk. destruct Hk as [_ Hk].
+      right; right; left. exists k, tmp'. split; assumption.
+    + right; right; right. exact Hb.
 Qed.
 
-Lemma inv_run : forall ls c c', inv c -> run_lts c ls = Some c' -> inv c'.
+Lemma inv_run hold : forall ls c c', inv c -> run_lts hold c ls = Some c' -> inv c'.
 Proof.
   induction ls as [|l ls IH]; intros c c' I H; cbn [run_lts] in H.
   - inversion H; subst. exact I.
-  - destruct (step c l) as [c1|] eqn:S; [|discriminate]. eapply IH; [eapply inv_step; eassumption | exact H].
+  - destruct (step hold c l) as [c1|] eqn:S; [|discriminate]. eapply IH; [eapply inv_step; eassumption | exact H].
 Qed.
 
-(* every block of the offsets file (and of a snapshot being taken) is the offsets map one job had at
-   an earlier instant — the instant save held that job's lock — and no offset in it exceeds what is
-   committed now *)
-Theorem snapshot_not_ahead : forall ls c,
-  run_lts cst0 ls = Some c ->
-  forall j m, in_snapshot c j m ->
+(* every block of the offsets file (and of the shared buffer, of every temp file) is the offsets map one job
+   had at an earlier instant — the instant a save held that job's lock — and no offset in it exceeds what is
+   committed now; whether or not save keeps o.mu until the rename *)
+Theorem snapshot_not_ahead : forall hold ls c,
+  run_lts hold cst0 ls = Some c ->
+  forall j m, block_of c j m ->
     (exists t, In t (live c :: hist c) /\ tget t j = Some m) /\
     (exists m', tget (live c) j = Some m' /\ forall s, sget m s <= sget m' s).
 Proof.
-  intros ls c H j m Hs. pose proof (inv_run ls cst0 c inv0 H) as [IH IS].
+  intros hold ls c H j m Hs. pose proof (inv_run hold ls cst0 c inv0 H) as [IH IS].
   destruct (IS j m Hs) as (t & Ht & G). split; [exists t; split; assumption|].
   destruct Ht as [<-|Ht]; [apply (tle_refl (live c)); exact G | apply (IH t Ht); exact G].
+Qed.
+
+(* ---- with o.mu held until after the rename the file is always ONE complete snapshot --------------------- *)
+Record hinv (c : cst) : Prop := {
+  h_mu : forall i p, In (i, p) (saves c) -> mu c = Some i;
+  h_ready : forall i, In (i, Ready) (saves c) -> In (i, buf c) (built c);
+  h_written : forall i tmp, In (i, Written tmp) (saves c) -> In (i, tmp) (built c);
+  h_file : file_complete c
+}.
+
+Lemma hinv0 : hinv cst0.
+Proof. constructor; cbn; try (intros; contradiction). reflexivity. Qed.
+
+Lemma holds_mu_eq c i : holds_mu c i = true -> mu c = Some i.
+Proof. unfold holds_mu. destruct (mu c) as [k|]; [|discriminate]. intros H. apply Nat.eqb_eq in H. congruence. Qed.
+
+(* under h_mu, once save i holds the lock no entry with another key exists *)
+Lemma only_owner c i k p : hinv c -> mu c = Some i -> In (k, p) (saves c) -> k = i.
+Proof. intros Hh Hm Hin. pose proof (h_mu c Hh k p Hin) as E. congruence. Qed.
+
+Lemma hinv_step c l c' : hinv c -> step true c l = Some c' -> hinv c'.
+Proof.
+  intros Hh H. destruct l as [j|j s v|i|i|i|i|i]; cbn [step] in H.
+  - destruct (tget (live c) j); [discriminate|]. inversion H; subst c'; clear H.
+    destruct Hh as [A B C D]. constructor; assumption.
+  - destruct (tget (live c) j) as [m0|]; [|inversion H; subst; exact Hh].
+    destruct (sget m0 s <? v); [|discriminate]. inversion H; subst c'; clear H.
+    destruct Hh as [A B C D]. constructor; assumption.
+  - (* begin: no other save is in flight *)
+    destruct (mu c) eqn:M; [discriminate|]. destruct (sv_get (saves c) i); [discriminate|].
+    inversion H; subst c'; clear H.
+    assert (Hnone : forall k p, In (k, p) (saves c) -> False).
+    { intros k p Hin. pose proof (h_mu c Hh k p Hin). congruence. }
+    constructor; cbn [saves mu buf built file renamed].
+    + intros k p Hk. apply sv_set_in in Hk. destruct Hk as [[-> _]|[_ Hk]]; [reflexivity | destruct (Hnone _ _ Hk)].
+    + intros k Hk. apply sv_set_in in Hk. destruct Hk as [[_ E]|[_ Hk]]; [discriminate E | destruct (Hnone _ _ Hk)].
+    + intros k tmp Hk. apply sv_set_in in Hk. destruct Hk as [[_ E]|[_ Hk]]; [discriminate E | destruct (Hnone _ _ Hk)].
+    + exact (h_file c Hh).
+  - (* visit a job *)
+    destruct (sv_get (saves c) i) as [[[|j rest]| |]|] eqn:P; try discriminate.
+    destruct (holds_mu c i) eqn:HM; [|discriminate]. inversion H; subst c'; clear H.
+    apply holds_mu_eq in HM.
+    constructor; cbn [saves mu buf built file renamed].
+    + intros k p Hk. apply sv_set_in in Hk. destruct Hk as [[-> _]|[_ Hk]]; [exact HM | apply (h_mu c Hh k p Hk)].
+    + intros k Hk. apply sv_set_in in Hk. destruct Hk as [[_ E]|[Hne Hk]]; [discriminate E|].
+      exfalso. apply Hne. eapply only_owner; eassumption.
+    + intros k tmp Hk. apply sv_set_in in Hk. destruct Hk as [[_ E]|[Hne Hk]]; [discriminate E|].
+      exfalso. apply Hne. eapply only_owner; eassumption.
+    + exact (h_file c Hh).
+  - (* built: the lock is kept *)
+    destruct (sv_get (saves c) i) as [[[|j rest]| |]|] eqn:P; try discriminate.
+    destruct (holds_mu c i) eqn:HM; [|discriminate]. inversion H; subst c'; clear H.
+    apply holds_mu_eq in HM.
+    constructor; cbn [saves mu buf built file renamed].
+    + intros k p Hk. apply sv_set_in in Hk. destruct Hk as [[-> _]|[_ Hk]]; [exact HM | apply (h_mu c Hh k p Hk)].
+    + intros k Hk. apply sv_set_in in Hk. destruct Hk as [[-> _]|[Hne Hk]]; [left; reflexivity|].
+      exfalso. apply Hne. eapply only_owner; eassumption.
+    + intros k tmp Hk. apply sv_set_in in Hk. destruct Hk as [[_ E]|[Hne Hk]]; [discriminate E|].
+      exfalso. apply Hne. eapply only_owner; eassumption.
+    + pose proof (h_file c Hh) as F. unfold file_complete in *. cbn [renamed file built].
+      destruct (renamed c); [destruct F as (k & F); exists k; right; exact F | exact F].
+  - (* write: the shared buffer is still what this save built *)
+    destruct (sv_get (saves c) i) as [[| |]|] eqn:P; try discriminate.
+    inversion H; subst c'; clear H.
+    pose proof (sv_get_in _ _ _ P) as Pin. pose proof (h_mu c Hh _ _ Pin) as HM.
+    constructor; cbn [saves mu buf built file renamed].
+    + intros k p Hk. apply sv_set_in in Hk. destruct Hk as [[-> _]|[_ Hk]]; [exact HM | apply (h_mu c Hh k p Hk)].
+    + intros k Hk. apply sv_set_in in Hk. destruct Hk as [[_ E]|[Hne Hk]]; [discriminate E|].
+      exfalso. apply Hne. eapply only_owner; eassumption.
+    + intros k tmp Hk. apply sv_set_in in Hk. destruct Hk as [[-> E]|[Hne Hk]].
+      * inversion E; subst tmp. apply (h_ready c Hh i Pin).
+      * exfalso. apply Hne. eapply only_owner; eassumption.
+    + exact (h_file c Hh).
+  - (* rename *)
+    destruct (sv_get (saves c) i) as [[| |tmp]|] eqn:P; try discriminate.
+    inversion H; subst c'; clear H.
+    pose proof (sv_get_in _ _ _ P) as Pin. pose proof (h_mu c Hh _ _ Pin) as HM.
+    constructor; cbn [saves mu buf built file renamed].
+    + intros k p Hk. apply sv_del_in in Hk. destruct Hk as [Hne Hk]. exfalso. apply Hne. eapply only_owner; eassumption.
+    + intros k Hk. apply sv_del_in in Hk. destruct Hk as [Hne Hk]. exfalso. apply Hne. eapply only_owner; eassumption.
+    + intros k tmp' Hk. apply sv_del_in in Hk. destruct Hk as [Hne Hk]. exfalso. apply Hne. eapply only_owner; eassumption.
+    + unfold file_complete. cbn [renamed file built]. exists i. apply (h_written c Hh i tmp Pin).
+Qed.
+
+Theorem file_complete_when_mu_held : forall ls c, run_lts true cst0 ls = Some c -> file_complete c.
+Proof.
+  intros ls. assert (G : forall c c', hinv c -> run_lts true c ls = Some c' -> hinv c').
+  { induction ls as [|l ls IH]; intros c c' Hh H; cbn [run_lts] in H.
+    - inversion H; subst. exact Hh.
+    - destruct (step true c l) as [c1|] eqn:S; [|discriminate]. eapply IH; [eapply hinv_step; eassumption | exact H]. }
+  intros c H. exact (h_file c (G cst0 c hinv0 H)).
+Qed.
+
+(* ... and with the lock released before the write it is not: save 1 serialises jobs 1 and 2 and unlocks;
+   save 2 starts, resets the shared buffer and visits job 1; save 1 now writes the buffer — only job 1 — and
+   renames: the file has lost job 2 *)
+Definition overlap_trace : list label :=
+  [LAddJob 1; LAddJob 2; LCommit 1 [97%N] 5; LCommit 2 [97%N] 6;
+   LSaveBegin 1; LSaveJob 1; LSaveJob 1; LSaveBuilt 1;
+   LSaveBegin 2; LSaveJob 2; LSaveWrite 1; LSaveRename 1].
+
+Lemma file_complete_refuted_when_mu_released :
+  exists c, run_lts false cst0 overlap_trace = Some c /\
+            file c = [(1%N, [([97%N], 5)])] /\
+            built c = [(1%nat, [(1%N, [([97%N], 5)]); (2%N, [([97%N], 6)])])] /\
+            ~ file_complete c.
+Proof.
+  eexists. split; [vm_compute; reflexivity|]. split; [reflexivity|]. split; [reflexivity|].
+  unfold file_complete. cbn. intros (i & [E|[]]). inversion E.
 Qed.
